@@ -30,7 +30,29 @@ ASSUMPTIONS = ["iterables without aclose get a neutral context: only the in-bloc
                "tool laziness is C05's concern; the stdlib twin predicts how many items each tool takes"]
 EXHAUSTIVE = {"quick": False, "thorough": False}
 N_PROG = {"quick": 2500, "thorough": 60000}
-FLAVS = ["async_gen", "async_class", "async_class", "async_class_bare", "sync_iter"]
+FLAVS = ["async_gen", "async_class", "async_class", "async_class_bare", "sync_iter", "slowclose", "failclose"]
+
+
+class CloseError(Exception):
+    pass
+
+
+def _special_source(st, flav):
+    """Class-based underlying iterators whose own aclose suspends / fails (after doing its work)."""
+    from ..probes import AsyncSrc
+
+    class SlowClose(AsyncSrc):
+        async def aclose(self):
+            self.st.closed += 1
+            await Suspend(("aclose", self.st.sid))
+
+    class FailClose(AsyncSrc):
+        async def aclose(self):
+            self.st.closed += 1
+            raise CloseError("underlying aclose failed")
+
+    return SlowClose(st) if flav == "slowclose" else FailClose(st)
+
 
 
 class BlockError(Exception):
@@ -80,8 +102,9 @@ def execute(case, raise_at=None, cancel_at=None, susp=0, raise_type="Exception",
     CTX.reset()
     keys = case["keys"]
     st = SrcState(0, [Item(k, (0, i), truth=k != 0) for i, k in enumerate(keys)], Plan(susp), log=False)
-    under = make_source(st, case["flav"])
-    closable = case["flav"] in ("async_gen", "async_class")
+    special = case["flav"] in ("slowclose", "failclose")
+    under = _special_source(st, case["flav"]) if special else make_source(st, case["flav"])
+    closable = case["flav"] in ("async_gen", "async_class") or special
     model = CountIt([Item(k, (0, i), truth=k != 0) for i, k in enumerate(keys)])
     viols = []
     head = f"scoped_iter under={case['flav']} keys={keys} block={case['block']} raise_at={raise_at} cancel_at={cancel_at}"
@@ -194,7 +217,7 @@ def execute(case, raise_at=None, cancel_at=None, susp=0, raise_type="Exception",
                 outcome["exit"] = f"other:{type(exc).__name__}"
         # ---- after the outermost exit -------------------------------------------------------
         if closable:
-            if case["flav"] == "async_class" and st.closed != 1:
+            if (case["flav"] == "async_class" or special) and st.closed != 1:
                 fail("scoped_iter/close-count", f"underlying aclose called {st.closed} times after the outermost exit "
                                                 f"({outcome['exit']})")
             if case["flav"] == "async_gen" and not st.finished_gen():
@@ -203,6 +226,12 @@ def execute(case, raise_at=None, cancel_at=None, susp=0, raise_type="Exception",
             for k, h in enumerate(dead_handles):
                 try:
                     got = await anext_of(h)
+                except Cancel:
+                    # the planned cancellation point was only reached here: the handle suspended inside the
+                    # underlying iterator although its scope has ended
+                    fail("scoped_iter/handle-alive-after-exit", f"handle of scope #{k} advanced the underlying iterator "
+                                                                f"after its scope ended")
+                    break
                 except RuntimeError as exc:
                     # CPython leaves a generator "running" when GeneratorExit went through its pending
                     # __anext__; such a handle cannot yield anything either
@@ -254,7 +283,7 @@ def run_case(case, stats: Counter):
     for k in range(1, nops + 1):
         # the way the block is left rotates over Exception / BaseException / GeneratorExit / KeyboardInterrupt
         one(raise_at=k, raise_type=kinds[(k + len(case["keys"])) % len(kinds)])
-    if case["flav"] in ("async_class", "async_gen", "async_class_bare"):
+    if case["flav"] in ("async_class", "async_gen", "async_class_bare", "slowclose", "failclose"):
         info = one(susp=1)
         for i in range(1, info["suspensions"] + 1):
             one(susp=1, cancel_at=i)
